@@ -283,7 +283,9 @@ def fsEmplace (lt : α → α → Bool) (cap : Nat) (l : List α) (v : α) : Exc
       .ok (l', .inserted it)
   else .ok (l, .exists_ p)
 
-/-- `flat_set::insert(first, last)`: `while (first != last) { insert(*first); ++first; }` -/
+/-- `flat_set::insert(first, last)`: `while (first != last) { insert(*first); ++first; }`; also
+    `flat_set::insert(sorted_unique, first, last)` = `insert(first, last)` (defined by the `fix:` of
+    F-C09-fs-insert-sorted-unique-undefined; it was declared only) -/
 def fsInsertRange (lt : α → α → Bool) (cap : Nat) : List α → List α → Except Err (List α)
   | l, [] => .ok l
   | l, v :: vs => do
